@@ -374,8 +374,6 @@ func (ro *Roles) sharedSlices(r *Report, rule string) {
 	}
 }
 
-func ssaIs(a ssa.Value, b ssa.Value) bool { return a == b }
-
 // whoDeletesJobs: jobs leave the id index only on the retention path of the save function.
 func (ro *Roles) whoDeletesJobs(r *Report, rule string) {
 	w := ro.w
